@@ -568,6 +568,43 @@ def xarray_ops(tier, seed):
                             "a node, edge or face dimension's length equals the corresponding element count of the attached grid",
                             {"mesh": m["name"], "array": f"UxDataArray(dims=[k, {dim}], shape=[{n}, {n}]).transpose({dim}, k)", "op": oname[4:]}, list(r.shape))
 
+    # ---------------- grid-dimension indexing applied to the result of grid-dimension indexing (a subset of a subset)
+    for m in meshes:
+        nf = m["n_face"]
+        if nf < 5:
+            continue
+        g = grid_of(m)
+        first = [3, 1, 4, 2] if nf >= 5 else list(range(nf))
+        for lead, dims in (((), ["n_face"]), ((2,), ["time", "n_face"])):
+            vals = np.arange(float(int(np.prod(lead + (nf,))))).reshape(lead + (nf,)) + 100.0
+            a = ux.UxDataArray(vals, dims=dims, uxgrid=g, name="v")
+            for second, between in (([1, 0], None), ([2], "mean_if_time"), ([0, 3], "times_two")):
+                ck.cases += 1
+                ck.distinct.add((m["name"], tuple(dims), tuple(second), between))
+                inputs = {"mesh": m["name"], "array": "face-centred", "dims": dims,
+                          "op": f"isel(n_face={first}) then {between or 'nothing'} then isel(n_face={second})"}
+                try:
+                    r1 = a.isel(n_face=first)
+                    exp = vals[..., first]
+                    if between == "times_two":
+                        r1, exp = r1 * 2.0, exp * 2.0
+                    if between == "mean_if_time" and "time" in r1.dims:
+                        r1, exp = r1.mean("time"), exp.mean(axis=0)
+                    r2 = r1.isel(n_face=second)
+                    exp = exp[..., second]
+                except Exception as e:  # noqa: BLE001
+                    ck.fail(f"raises:own_isel_grid_dim|own_isel_grid_dim:{type(e).__name__}", f"raises {type(e).__name__}: {str(e)[:160]}",
+                            "finite compositions of such operations", inputs)
+                    continue
+                got = np.asarray(r2.values)
+                if got.shape != exp.shape or not np.array_equal(got, exp):
+                    ck.fail("values:own_isel_grid_dim|own_isel_grid_dim", "indexing the face dimension of an already face-indexed array does not "
+                            "select the requested elements of that array", "values equal what plain xarray computes on the same data", inputs, got, exp)
+                bad = _dim_lengths_ok(r2)
+                if bad:
+                    ck.fail("grid_dim_length:own_isel_grid_dim|own_isel_grid_dim", "grid dimension length differs from the attached grid's element count",
+                            "a node, edge or face dimension's length equals the corresponding element count of the attached grid", inputs)
+
     # ---------------- deep copy independence seen through the public interface
     g = grid_of(mg.quad_patch(2, 1))
     a = ux.UxDataArray(np.arange(2.0), dims=["n_face"], uxgrid=g, name="v")
